@@ -142,6 +142,26 @@ def rule_r1(chk, p, t):
                 guard = cur
                 break
         ok = guard is not None and "predictObservation(" in unparse(guard.test) and sets[0] in guard.body and unparse(sets[0].value) == "True"
+        if not ok and unparse(sets[0].value) == "True":
+            # the same guard through the CFG: every path to the store passes a true test of the prediction result (a
+            # walrus in the test, or a local bound to predictObservation(...) tested directly / by `if not x: continue`)
+            from rsa.cfg import cfg_of as _cfg_of
+
+            cfg_ = _cfg_of(w)
+            nd_ = cfg_.node_of(sets[0])
+            defs_ = {}
+            for n_ in walk_no_nested(w.node):
+                if isinstance(n_, ast.Assign) and len(n_.targets) == 1 and isinstance(n_.targets[0], ast.Name):
+                    defs_.setdefault(n_.targets[0].id, []).append(n_.value)
+            for cid, lab in cfg_.control_conditions(nd_.id) if nd_ is not None else []:
+                cn = cfg_.nodes[cid]
+                if cn.kind != "cond" or lab is not True:
+                    continue
+                a_ = cn.ast
+                if "predictObservation(" in unparse(a_) and not isinstance(a_, ast.Compare):
+                    ok = True
+                if isinstance(a_, ast.Name) and len(defs_.get(a_.id, [])) == 1 and isinstance(defs_[a_.id][0], ast.Call) and call_name(defs_[a_.id][0]) == "predictObservation":
+                    ok = True
         # index is the loop index over the sensors
         loops = [n for n in walk_no_nested(w.node) if isinstance(n, ast.For) and sets[0] in list(ast.walk(n))]
         idx_ok = loops and isinstance(loops[0].iter, ast.Call) and call_name(loops[0].iter) == "enumerate" and isinstance(loops[0].target, ast.Tuple) and unparse(loops[0].target.elts[0]) == unparse(sets[0].targets[0].slice)
